@@ -164,3 +164,38 @@ func ZZ_C05_ExpiredOnArrival() {
 	vfAssert("exactly-one-notification-after-delete", n2 == 1)
 	vfAssert("gone-after-delete", s.Len() == 0)
 }
+
+// ZZ_C05_DeleteVsReset: Delete of a key races a Set of the same key (a new incarnation) on a one-slot cache, so
+// that the old incarnation may be evicted or removed while the new one already owns the map slot.
+func ZZ_C05_DeleteVsReset() {
+	var notes []zzNote
+	s := zzThreadedStore(1, &notes)
+	s.Set(1, 100, 1, 0)
+	s.Wait()
+	vfSetPreemptions(vfConfig("PRE", 1))
+	done := make(chan int, 2)
+	go func() { s.Delete(1); done <- 1 }()
+	go func() { s.Set(1, 200, 1, 0); done <- 1 }()
+	<-done
+	<-done
+	vfSetPreemptions(0)
+	s.Wait()
+	vfReach("drained")
+	e, resident := s.shards[zzIndex(s, 1)].hashmap[1]
+	nOld, nNew := 0, 0
+	for _, n := range notes {
+		if n.key == 1 && n.val == 100 {
+			nOld++
+		}
+		if n.key == 1 && n.val == 200 {
+			nNew++
+		}
+	}
+	if resident {
+		vfAssert("resident-value-is-the-new-one-or-the-surviving-update", e.value == 200)
+		vfAssert("no-notification-for-the-resident-incarnation", nNew == 0)
+	}
+	vfAssert("each-incarnation-notified-at-most-once", nOld <= 1 && nNew <= 1)
+	zzAccounted(s, "delete-vs-reset")
+	zzViews(s, "delete-vs-reset")
+}
